@@ -118,6 +118,13 @@ def gen_attr(rng, fs, trait, extra_names=(), p_bare=0.35):
         if not bare and rng.random() < 0.3:
             pieces.append(rng.choice(["z", " ", "{{", "}}"]))
     lit = "".join(pieces)
+    # a placeholder naming a field that an explicit argument of the same name re-binds to a non-identifier expression
+    shadow = None
+    plain = [i for i in idents if not i.startswith("r#")]
+    if plain and rng.random() < 0.12:
+        f = rng.choice(plain)
+        lit += "{%s}" % f
+        shadow = (f, rng.choice(["1 + 1", "\"s\"", "%s.clone()" % rng.choice(idents), "f(a, b)"]))
     # arguments
     n_args = rng.choice([npos, npos, npos, 0, 1, 2]) if rng.random() < 0.8 else rng.randrange(0, 3)
     exprs = idents + ["%s.clone()" % i for i in idents[:1]] + ["1 + 1", "\"s\"", "self", "*self", "f(a, b)", "_variant"]
@@ -128,6 +135,8 @@ def gen_attr(rng, fs, trait, extra_names=(), p_bare=0.35):
             if al.startswith("r#"):
                 al = "al"
         args.append((al, rng.choice(exprs if exprs else ["1"])))
+    if shadow is not None:
+        args.append(shadow)
     # named args must follow positional ones for format_args!, the macro itself does not care; keep both orders
     return F.mk_attr(lit, args)
 
